@@ -83,7 +83,7 @@ def bgd_random(rng, n):
 
 # ------------------------------------------------------------------ generic random shaders
 SCALARS = ["f32", "i32", "u32"]
-CTXS = ["plain", "if_accept", "if_reject", "if_else_if", "switch_case", "switch_default", "loop_body",
+CTXS = ["plain", "if_accept", "if_reject", "if_else_if", "switch_case", "switch_default", "switch_multi", "loop_body",
         "loop_continuing", "for_body", "while_body"]
 FORMATS_F = ["rgba8unorm", "rgba8snorm", "rgba16float", "r32float", "rg32float", "rgba32float"]
 FORMATS_U = ["rgba8uint", "rgba16uint", "r32uint", "rg32uint", "rgba32uint"]
@@ -272,3 +272,199 @@ def rand_shader(rng, n_fn=(0, 4), n_entry=(1, 3), n_res=(1, 6), depth=2, push=0.
             e["wg"] = [str(rng.choice([1, 8, 64]))]
         S["entries"].append(e)
     return S
+
+
+# ------------------------------------------------------------------ C20 growth families
+G_RW = {"name": "buf", "space": "storage_rw", "group": "0", "binding": "0", "ty": {"k": "array", "n": 4, "e": {"k": "scalar", "s": "u32"}}}
+
+
+def _base(globals_=None):
+    return {"structs": [], "globals": [dict(G_RW)] if globals_ is None else globals_, "consts": [], "overrides": [], "functions": [], "entries": []}
+
+
+def chain(depth, ret, stages=("compute",), ctx=None):
+    S = _base()
+    for i in range(depth):
+        body = []
+        if i + 1 < depth:
+            c = {"k": "call", "f": "h%d" % (i + 1), "expr": ret}
+            body.append({"k": "block", "ctx": ctx, "items": [c]} if ctx else c)
+        else:
+            body.append({"k": "access", "g": "buf", "how": "store"})
+        S["functions"].append({"name": "h%d" % i, "ret": ret, "body": body})
+    for k, st in enumerate(stages):
+        e = {"name": "e%d" % k, "stage": st, "params": [], "body": [{"k": "call", "f": "h0", "expr": ret}], "wg": ["1"] if st == "compute" else []}
+        S["entries"].append(e)
+    return S
+
+
+def nested(ctx, depth, ret=False):
+    """one function whose body nests `ctx` blocks `depth` deep around a call"""
+    S = _base()
+    S["functions"].append({"name": "leaf", "ret": ret, "body": [{"k": "access", "g": "buf", "how": "store"}]})
+    node = {"k": "call", "f": "leaf", "expr": ret}
+    for _ in range(depth):
+        node = {"k": "block", "ctx": ctx, "items": [node]}
+    S["entries"].append({"name": "main", "stage": "compute", "params": [], "wg": ["1"], "body": [node]})
+    return S
+
+
+def dag_arg(n):
+    """a call whose argument is an expression DAG of depth n (each step uses the previous value twice)"""
+    S = _base()
+    S["functions"].append({"name": "sink", "ret": False, "param": True, "body": [{"k": "access", "g": "buf", "how": "store"}]})
+    S["entries"].append({"name": "main", "stage": "compute", "params": [], "wg": ["1"], "body": [{"k": "call", "f": "sink", "dag": n}]})
+    return S
+
+
+def diamond(levels, ret, width=2):
+    S = _base()
+    for l in range(levels):
+        for w in range(width):
+            body = []
+            if l + 1 < levels:
+                for w2 in range(width):
+                    body.append({"k": "call", "f": "d%d_%d" % (l + 1, w2), "expr": ret})
+            else:
+                body.append({"k": "access", "g": "buf", "how": "load"})
+            S["functions"].append({"name": "d%d_%d" % (l, w), "ret": ret, "body": body})
+    S["entries"].append({"name": "main", "stage": "compute", "params": [], "wg": ["1"],
+                         "body": [{"k": "call", "f": "d0_%d" % w, "expr": ret} for w in range(width)]})
+    return S
+
+
+def fan_in(n, ret, sites=3):
+    S = _base()
+    S["functions"].append({"name": "leaf", "ret": ret, "body": [{"k": "access", "g": "buf", "how": "store"}]})
+    for i in range(n):
+        S["functions"].append({"name": "fan%d" % i, "ret": ret, "body": [{"k": "call", "f": "leaf", "expr": ret} for _ in range(sites)]})
+    S["entries"].append({"name": "main", "stage": "compute", "params": [], "wg": ["1"],
+                         "body": [{"k": "call", "f": "fan%d" % i, "expr": ret} for i in range(n)]})
+    return S
+
+
+def struct_tower(levels, fan=2, via="member"):
+    S = _base([])
+    S["structs"].append({"name": "L0", "members": [{"name": "v", "ty": VEC4}]})
+    for l in range(1, levels + 1):
+        prev = {"k": "struct", "name": "L%d" % (l - 1)}
+        if via == "array":
+            mem = [{"name": "m%d" % j, "ty": {"k": "array", "n": 2, "e": prev}} for j in range(fan)]
+        else:
+            mem = [{"name": "m%d" % j, "ty": prev} for j in range(fan)]
+        S["structs"].append({"name": "L%d" % l, "members": mem})
+    S["globals"].append({"name": "top", "space": "storage_r", "group": "0", "binding": "0", "ty": {"k": "struct", "name": "L%d" % levels}})
+    S["entries"].append({"name": "main", "stage": "compute", "params": [], "wg": ["1"], "body": [{"k": "access", "g": "top", "how": "load"}]})
+    return S
+
+
+def wide(n_bindings, n_members):
+    S = _base([])
+    S["structs"].append({"name": "Big", "members": [{"name": "m%d" % j, "ty": VEC4} for j in range(n_members)]})
+    for i in range(n_bindings):
+        S["globals"].append({"name": "b%d" % i, "space": "uniform", "group": str(i % 4), "binding": str(i // 4), "ty": {"k": "struct", "name": "Big"}})
+    S["entries"].append({"name": "main", "stage": "fragment", "params": [], "wg": [],
+                         "body": [{"k": "access", "g": "b%d" % i, "how": "load"} for i in range(n_bindings)]})
+    return S
+
+
+def growth_cases(quick):
+    cases = []
+    depths = [2, 4, 8, 12, 16, 24, 32, 48, 64]
+    for d in depths:
+        for ret in (False, True):
+            cases.append(("chain-d%d-%s" % (d, "ret" if ret else "void"), chain(d, ret)))
+        cases.append(("chain3-d%d" % d, chain(d, True, stages=("vertex", "fragment", "compute"))))
+        cases.append(("chain-cont-d%d" % d, chain(d, False, ctx="loop_continuing")))
+        cases.append(("chain-switch-d%d" % d, chain(d, False, ctx="switch_case")))
+        cases.append(("chain-switchmulti-d%d" % d, chain(d, False, ctx="switch_multi")))
+        cases.append(("chain-ifelse-d%d" % d, chain(d, True, ctx="if_else_if")))
+        cases.append(("dagarg-d%d" % d, dag_arg(d)))
+    for d in [4, 8, 16, 24, 30]:
+        for ctx in ["plain", "if_accept", "if_reject", "switch_case", "switch_multi", "switch_default", "loop_body", "loop_continuing"]:
+            cases.append(("nested-%s-d%d" % (ctx, d), nested(ctx, d)))
+    for l in [2, 4, 8, 12, 16, 24, 32]:
+        for ret in (False, True):
+            cases.append(("diamond-l%d-%s" % (l, "ret" if ret else "void"), diamond(l, ret)))
+        cases.append(("diamond3-l%d" % l, diamond(min(l, 20), True, width=3)))
+    for n in [4, 16, 64, 150]:
+        for ret in (False, True):
+            cases.append(("fanin-n%d-%s" % (n, "ret" if ret else "void"), fan_in(n, ret)))
+    # struct sizes double per level, so towers stop where the byte size still fits comfortably in u32
+    for l in [2, 4, 8, 12, 16, 20, 24]:
+        cases.append(("tower-l%d" % l, struct_tower(l)))
+        cases.append(("tower-arr-l%d" % l, struct_tower(min(l, 12), via="array")))
+        cases.append(("tower3-l%d" % l, struct_tower(min(l, 14), fan=3)))
+    for n in [8, 64, 200]:
+        cases.append(("wide-b%d" % n, wide(n, 100)))
+    return [{"id": "grow-" + n, "family": "growth", "S": S, "opts": opts()} for n, S in cases]
+
+
+# ------------------------------------------------------------------ C13 push constants
+def leaf_table():
+    t = []
+    for sc in SCALARS:
+        t.append({"k": "scalar", "s": sc})
+        for n in (2, 3, 4):
+            t.append({"k": "vec", "n": n, "s": sc})
+    for c in (2, 3, 4):
+        for r in (2, 3, 4):
+            t.append({"k": "mat", "c": c, "r": r, "s": "f32"})
+    return t
+
+
+def push_cases(rng, n):
+    cases = []
+    leafs = leaf_table()
+    i = 0
+
+    def mk(ty, structs, pattern, stages, extra_binding):
+        nonlocal i
+        S = {"structs": structs, "globals": [], "consts": [], "overrides": [], "functions": [], "entries": []}
+        if extra_binding:
+            S["globals"].append({"name": "ub", "space": "uniform", "group": "0", "binding": "0", "ty": VEC4})
+        if ty is not None:
+            S["globals"].append({"name": "pc", "space": "push", "ty": ty})
+        acc = [{"k": "access", "g": "pc", "how": "load"}] if ty is not None else []
+        # helper chain of depth 2: outer (touches no global) -> inner (reads pc)
+        S["functions"].append({"name": "inner", "ret": rng.random() < 0.5, "body": list(acc)})
+        S["functions"].append({"name": "outer", "ret": rng.random() < 0.5, "body": [{"k": "call", "f": "inner", "expr": True}]})
+        for k, st in enumerate(stages):
+            pat = pattern[k % len(pattern)]
+            body = []
+            if pat == "direct":
+                body = list(acc)
+            elif pat == "helper":
+                body = [{"k": "call", "f": "inner", "expr": False}]
+            elif pat == "nested":
+                body = [wrap(rng, {"k": "call", "f": "outer", "expr": True}, rng.randint(0, 2))]
+            if extra_binding and rng.random() < 0.5:
+                body.append({"k": "access", "g": "ub", "how": "load"})
+            e = {"name": "e%d" % k, "stage": st, "params": [], "body": body, "wg": ["1"] if st == "compute" else []}
+            S["entries"].append(e)
+        cases.append({"id": "push-%05d" % i, "family": "push", "S": S, "opts": opts(validate=rng.choice(["none", "all"]))})
+        i += 1
+    pats = [["none"], ["direct"], ["helper"], ["nested"], ["nested", "none"], ["none", "nested"], ["direct", "nested", "none"], ["helper", "direct"]]
+    stage_sets = [["vertex"], ["fragment"], ["compute"], ["vertex", "fragment"], ["fragment", "vertex"], ["vertex", "fragment", "compute"],
+                  ["compute", "compute"], ["fragment", "fragment", "vertex"], ["vertex", "compute"]]
+    # every leaf type once with every usage pattern class
+    for t in leafs:
+        mk(t, [], rng.choice(pats), rng.choice(stage_sets), rng.random() < 0.5)
+    while len(cases) < n:
+        r = rng.random()
+        structs = []
+        if r < 0.1:
+            ty = None
+        elif r < 0.45:
+            ty = rng.choice(leafs)
+        elif r < 0.6:
+            ty = {"k": "array", "n": rng.randint(1, 4), "e": rng.choice(leafs)}
+        else:
+            mem = [{"name": "m%d" % j, "ty": rng.choice(leafs + [{"k": "array", "n": 2, "e": rng.choice(leafs)}])} for j in range(rng.randint(1, 4))]
+            structs = [{"name": "PushData", "members": mem}]
+            if rng.random() < 0.3:
+                structs = [{"name": "Inner", "members": [{"name": "v", "ty": rng.choice(leafs)}]}] + structs
+                structs[1]["members"].append({"name": "tail", "ty": {"k": "struct", "name": "Inner"}})
+            ty = {"k": "struct", "name": "PushData"}
+        mk(ty, structs, rng.choice(pats), rng.choice(stage_sets), rng.random() < 0.5)
+    return cases
